@@ -57,11 +57,25 @@ func queueCase(c string) string {
 		pending int
 	}
 	var results []opResult
+	// the consumer owns what it is handed, the spare capacity of the slice included, for as long as it likes: after every
+	// operation it scribbles over the part of every received batch's backing array that lies beyond its length (an idle
+	// batch that still shares its array with the queue's buffer then corrupts what is queued next); the content itself
+	// is looked at only after the whole history
+	var received []event.Events
+	scribble := func() {
+		for _, b := range received {
+			full := b[:cap(b)]
+			for i := len(b); i < len(full); i++ {
+				full[i] = &event.CounterEvent{CMetricName: "consumer", CValue: -2}
+			}
+		}
+	}
 	drain := func() []event.Events {
 		var bs []event.Events
 		for {
 			select {
 			case b := <-ch:
+				received = append(received, b)
 				bs = append(bs, b)
 			default:
 				return bs
@@ -86,6 +100,7 @@ func queueCase(c string) string {
 			clk.TickerCh <- time.Unix(0, 0)
 			select {
 			case b := <-ch:
+				received = append(received, b)
 				r.batches = append(r.batches, b)
 			case <-time.After(5 * time.Second):
 				r.timeout = true
@@ -94,6 +109,7 @@ func queueCase(c string) string {
 		}
 		r.pending = eq.Len()
 		results = append(results, r)
+		scribble()
 	}
 	var out []string
 	for _, r := range results {
